@@ -21,6 +21,8 @@ Judge(B) ==
        <<"P:C12:eq-iff-content", (B.eq_bc = EqSpec(b, c, d)) /\ (B.eq_ac = (EqSpec(a, c, d) /\ (B.tensors = 1 => B.sameids = 1)))>>,
        <<"P:C12:isempty", B.empty_a = EmptySpec(a, d)>>,
        <<"P:C12:count", B.count_a = CountSpec(a, d)>>,
+       \* countValues(recursive=False) of the root fiber: its elements that hold content (an element holding an empty or all-default sub-tree holds none)
+       <<"P:C12:count-toplevel", B.count_nr = Cardinality({x[1][1] : x \in Content(a, d)})>>,
        <<"P:C12:nonempty-canonical", NoForeign(B.ne_a) /\ Canonical(Abs(B.ne_a), d) /\ Content(Abs(B.ne_a), d) = Content(a, d)>>,
        <<"P:C12:nonempty-equal", B.eq_ne>>,
        <<"P:C12:operands-unmodified", B.post = B.pre>> >>)
